@@ -57,6 +57,7 @@ type Contract struct {
 	Pure     bool
 	Closures map[int]*Contract
 	Asserts  []AssertSpec
+	ChanInvs map[string]*PredDef // channel expression text -> invariant of the values sent on it (one parameter)
 	Opaque   []string // callee simple names to treat as havoc
 	Fresh    bool     // results are fresh allocations
 	Bounded  string
@@ -136,7 +137,7 @@ var clauseKeywords = map[string]bool{
 	"pred": true, "spec": true, "lemma": true, "uses": true, "arith": true, "prop": true,
 	"callsite": true, "closure": true, "extern": true, "assert": true, "trusted": true,
 	"inline": true, "noinline": true, "pure": true, "const": true, "opaque": true, "fresh": true,
-	"end": true, "bounded": true, "pattern": true, "base": true, "ghost": true, "instance": true, "guarantee": true, "noframe": true, "lockinv": true,
+	"end": true, "bounded": true, "pattern": true, "base": true, "ghost": true, "instance": true, "guarantee": true, "noframe": true, "lockinv": true, "chaninv": true,
 }
 
 type rawClause struct {
@@ -465,6 +466,32 @@ func parseSpecFile(path string, pkgPath string) (*SpecFile, error) {
 				return nil, err
 			}
 			sf.Consts[strings.TrimSpace(rc.rest[:i])] = cl
+		case "chaninv":
+			// chaninv ch(v T) = expr : every value sent on ch (by the function or its contracted closures) satisfies expr in
+			// the sender's state; a receive from ch in the function may assume it
+			name, params, rest, err := parseSig(rc.rest)
+			if err != nil {
+				return nil, fmt.Errorf("%s:%d: %v", path, rc.line, err)
+			}
+			rest = strings.TrimSpace(rest)
+			if !strings.HasPrefix(rest, "=") || len(params) != 1 {
+				return nil, fmt.Errorf("%s:%d: chaninv ch(v T) = expr", path, rc.line)
+			}
+			cl, err := mk(rc, strings.TrimSpace(rest[1:]))
+			if err != nil {
+				return nil, err
+			}
+			owner := top
+			if owner == nil {
+				owner = cur
+			}
+			if owner == nil {
+				return nil, fmt.Errorf("%s:%d: chaninv outside func", path, rc.line)
+			}
+			if owner.ChanInvs == nil {
+				owner.ChanInvs = map[string]*PredDef{}
+			}
+			owner.ChanInvs[name] = &PredDef{Name: name, Params: params, Body: cl}
 		case "lockinv":
 			// lockinv Type.field(x) = expr : monitor invariant of the lock field, assumed at Lock, proved at Unlock
 			name, params, rest, err := parseSig(rc.rest)
